@@ -1068,4 +1068,207 @@ theorem op_fn (name : String) (ps : List String) (hn : identOk name = true) (hps
     simp only [goalsOk_cons, run_cons, s4 _ hX, s5 _ hX, a4, a5, goalsOk, run, Bool.and_self]
     exact ⟨trivial, trivial⟩
 
+
+/-! ## the guarded statement printer produces safe token runs -/
+
+theorem sp_nil_true : SP [] true where
+  ok := by simp
+  adj := rfl
+  lastU := by simp
+  hd := rfl
+  single := by simp
+  goal := by intro σ nl hσ; simp only [goalsOk, run, if_true]; exact ⟨trivial, SEnd_refl hσ⟩
+
+/-- `{ ts }` around one statement -/
+theorem sp_braces_stmt (ts : List Tok) (pend : Bool) (h : SP ts pend) : SP ([.p "{"] ++ ts ++ [.p "}"]) false :=
+  sp_braces ts h.ok h.adj (fun σ hσ =>
+    ⟨(h.goal (inBlock σ) false (SPos_inBlock hσ)).1, h.end_ (inBlock σ) false (SPos_inBlock hσ)⟩)
+
+/-- the run up to and including `else` -/
+theorem rp_body_else (H bt : List Tok) (pend1 : Bool) (hH : RP H) (hb : SP bt pend1) :
+    RP (H ++ bt ++ (if pend1 then [Tok.p ";"] else []) ++ [Tok.kw "else"]) := by
+  cases pend1 with
+  | true =>
+    have := rp_append _ _ (rp_append _ _ hH (rp_semi hb)) rp_else
+    simpa [List.append_assoc] using this
+  | false =>
+    have := rp_append _ _ (rp_append _ _ hH (rp_of_sp hb)) rp_else
+    simpa [List.append_assoc] using this
+
+theorem main (o : Opts) : ∀ fuel : Nat,
+    (∀ s r, printSG o fuel s = some r → SP r.1 r.2) ∧ (∀ l p r, printLG o fuel l p = some r → LP r p) := by
+  intro fuel
+  induction fuel with
+  | zero =>
+    refine ⟨fun s r h => by simp [printSG] at h, fun l p r h => ?_⟩
+    cases l with
+    | nil => simp [printLG] at h; subst h; exact lp_nil p
+    | cons a t => simp [printLG] at h
+  | succ n ih =>
+    obtain ⟨ihS, ihL⟩ := ih
+    refine ⟨?_, ?_⟩
+    · intro s r h
+      cases s with
+      | expr e =>
+        simp only [printSG] at h
+        cases he : efG o e with
+        | none => simp [he] at h
+        | some ts =>
+          simp only [he, Option.map, Option.some.injEq] at h
+          subst h
+          obtain ⟨hs, hh, h1⟩ := efG_seg o e ts he
+          exact sp_expr ts hs hh h1
+      | ret v =>
+        cases v with
+        | none => simp [printSG] at h; subst h; exact sp_ret0
+        | some e =>
+          simp only [printSG] at h
+          cases he : efG o e with
+          | none => simp [he] at h
+          | some ts =>
+            simp only [he, Option.map, Option.some.injEq] at h
+            subst h
+            exact sp_kw_expr "return" (Or.inl rfl) ts (efG_seg o e ts he).1
+      | throw e =>
+        simp only [printSG] at h
+        cases he : efG o e with
+        | none => simp [he] at h
+        | some ts =>
+          simp only [he, Option.map, Option.some.injEq] at h
+          subst h
+          exact sp_kw_expr "throw" (Or.inr rfl) ts (efG_seg o e ts he).1
+      | block l =>
+        simp only [printSG] at h
+        cases hl : printLG o n l false with
+        | none => simp [hl] at h
+        | some ts =>
+          simp only [hl, Option.map, Option.some.injEq] at h
+          subst h
+          have hL := ihL l false ts hl
+          exact sp_braces ts hL.ok hL.adj (fun σ hσ => hL.goal (inBlock σ) (inBlock σ) false (SPos_inBlock hσ) (by simp))
+      | empty => simp [printSG] at h; subst h; exact sp_empty
+      | absent => simp [printSG] at h; subst h; exact sp_empty
+      | fn name ps body =>
+        simp only [printSG] at h
+        split at h
+        · simp at h
+        · split at h
+          · simp at h
+          · rename_i hid
+            simp only [Bool.not_eq_true', Bool.and_eq_false_iff, not_or, Bool.not_eq_false] at hid
+            have hid' : identOk name = true ∧ identsOk (keptParams ps body) = true := by
+              cases h1 : identOk name <;> cases h2 : identsOk (keptParams ps body) <;> simp_all
+            cases hl : printLG o n (optStmtList (4 * sizeSL body + 16) body .function) false with
+            | none => simp [hl] at h
+            | some ts =>
+              simp only [hl, Option.map, Option.some.injEq] at h
+              subst h
+              have hL := ihL _ false ts hl
+              have hps : ∀ p ∈ keptParams ps body, identOk p = true := by
+                have := hid'.2; simpa [identsOk] using this
+              exact sp_block_gen _ ts (op_fn name (keptParams ps body) hid'.1 hps) hL.ok hL.adj
+                (fun σ hσ => hL.goal (inBlock σ) (inBlock σ) false (SPos_inBlock hσ) (by simp))
+      | ifS c t e =>
+        simp only [printSG] at h
+        cases hIt : isEmptyStmt t <;> cases hIe : isEmptyStmt e <;>
+          simp only [hIt, hIe, Bool.not_true, Bool.not_false, Bool.and_true, Bool.and_false, Bool.true_and,
+            Bool.false_and, Bool.false_eq_true, if_false, if_true] at h
+        · -- body and else
+          cases hc : efG o c with
+          | none => simp [hc] at h
+          | some ct =>
+            simp only [hc] at h
+            have hH := rp_if_head ct (efG_seg o c ct hc).1
+            cases hbr : endsInIf (sizeS t + 1) t <;> simp only [hbr, Bool.false_eq_true, if_false, if_true] at h
+            · cases hb : printSG o n t with
+              | none => simp [hb] at h
+              | some rb =>
+                obtain ⟨bt, pend1⟩ := rb
+                simp only [hb] at h
+                cases hee : printSG o n e with
+                | none => simp [hee] at h
+                | some r2 =>
+                  obtain ⟨et, pend2⟩ := r2
+                  simp only [hee, Option.some.injEq] at h
+                  subst h
+                  exact sp_after _ et pend2 (rp_body_else _ bt pend1 hH (ihS t _ hb)) (ihS e _ hee)
+            · cases hb : printSG o n t with
+              | none => simp [hb] at h
+              | some rb =>
+                simp only [hb, Option.map] at h
+                cases hee : printSG o n e with
+                | none => simp [hee] at h
+                | some r2 =>
+                  obtain ⟨et, pend2⟩ := r2
+                  simp only [hee, Option.some.injEq] at h
+                  subst h
+                  have hbody := sp_braces_stmt rb.1 rb.2 (ihS t _ hb)
+                  have := sp_after _ et pend2 (rp_body_else _ _ false hH hbody) (ihS e _ hee)
+                  simpa using this
+        · -- body only
+          cases hc : efG o c with
+          | none => simp [hc] at h
+          | some ct =>
+            simp only [hc] at h
+            have hH := rp_if_head ct (efG_seg o c ct hc).1
+            cases hb : printSG o n t with
+            | none => simp [hb] at h
+            | some rb =>
+              obtain ⟨bt, pend1⟩ := rb
+              simp only [hb, Option.some.injEq] at h
+              subst h
+              exact sp_after _ bt pend1 hH (ihS t _ hb)
+        · -- else only
+          cases hc : efG o c with
+          | none => simp [hc] at h
+          | some ct =>
+            simp only [hc] at h
+            have hH := rp_if_head ct (efG_seg o c ct hc).1
+            cases hee : printSG o n e with
+            | none => simp [hee] at h
+            | some r2 =>
+              obtain ⟨et, pend2⟩ := r2
+              simp only [hee, Option.some.injEq] at h
+              subst h
+              have := sp_after _ et pend2 (rp_body_else _ [] true hH sp_nil_true) (ihS e _ hee)
+              simpa using this
+        · simp at h; subst h; exact sp_empty
+    · intro l p r h
+      cases l with
+      | nil => simp [printLG] at h; subst h; exact lp_nil p
+      | cons s rest =>
+        simp only [printLG] at h
+        cases hs : printSG o n s with
+        | none => simp [hs] at h
+        | some r1 =>
+          obtain ⟨ts, pend⟩ := r1
+          simp only [hs] at h
+          cases hr : printLG o n rest pend with
+          | none => simp [hr] at h
+          | some r2 =>
+            simp only [hr, Option.some.injEq] at h
+            subst h
+            exact lp_cons ts r2 pend p (ihS s _ hs) (ihL rest pend r2 hr)
+
+
+theorem jsTokensG_agrees (o : Opts) (prog : List S) (ts : List Tok) (h : jsTokensG o prog = some ts) :
+    jsTokens o prog = some ts := by
+  unfold jsTokensG at h
+  unfold jsTokens
+  simp only [] at h ⊢
+  split at h
+  · simp at h
+  · rename_i hk
+    simp only [hk]
+    exact (agrees o _).2 _ _ _ h
+
+theorem jsTokensG_safe (o : Opts) (prog : List S) (ts : List Tok) (h : jsTokensG o prog = some ts) :
+    (∀ t ∈ ts, tokOk t = true) ∧ adjChain ts = true ∧ headOk ts = true ∧ goalsOk {} true ts = true := by
+  unfold jsTokensG at h
+  simp only [] at h
+  split at h
+  · simp at h
+  · have hL := (main o _).2 _ _ _ h
+    exact ⟨hL.ok, hL.adj, hL.hd, (hL.goal {} {} true SPos_init (by simp)).1⟩
+
 end Verif.Proofs.C09JsStmt
